@@ -154,46 +154,50 @@ func c04Space(tier string) *core.Space {
 				}
 				judge(fmt.Sprintf("diagnostic-type%d", d.Type), d.Range, want)
 			}
-			for _, t := range lx.Tokens {
-				if t.Kind != luaref.Name {
-					continue
-				}
-				tr := rng(text, luaref.Span{Start: t.Start, End: t.End})
-				for _, ch := range []int{tr.Start.Character, tr.End.Character} {
-					if locs, err := s.Definition("m.lua", tr.Start.Line, ch); err == nil {
-						r.Transitions++
-						for _, l := range locs {
-							if s.Rel(l.URI) == "m.lua" {
-								judge("definition", l.Range, t.Text)
+			phase := ""
+			sweep := func() {
+				for _, t := range luaref.Lex(text).Tokens {
+					if t.Kind != luaref.Name {
+						continue
+					}
+					tr := rng(text, luaref.Span{Start: t.Start, End: t.End})
+					for _, ch := range []int{tr.Start.Character, tr.End.Character} {
+						if locs, err := s.Definition("m.lua", tr.Start.Line, ch); err == nil {
+							r.Transitions++
+							for _, l := range locs {
+								if s.Rel(l.URI) == "m.lua" {
+									judge("definition"+phase, l.Range, t.Text)
+								}
 							}
 						}
 					}
-				}
-				if locs, err := s.References("m.lua", tr.Start.Line, tr.Start.Character); err == nil {
-					r.Transitions++
-					for _, l := range locs {
-						if s.Rel(l.URI) == "m.lua" {
-							judge("references", l.Range, t.Text)
+					if locs, err := s.References("m.lua", tr.Start.Line, tr.Start.Character); err == nil {
+						r.Transitions++
+						for _, l := range locs {
+							if s.Rel(l.URI) == "m.lua" {
+								judge("references"+phase, l.Range, t.Text)
+							}
 						}
 					}
-				}
-				if hs, err := s.Highlight("m.lua", tr.Start.Line, tr.Start.Character); err == nil {
-					r.Transitions++
-					for _, h := range hs {
-						judge("highlight", h.Range, t.Text)
+					if hs, err := s.Highlight("m.lua", tr.Start.Line, tr.Start.Character); err == nil {
+						r.Transitions++
+						for _, h := range hs {
+							judge("highlight"+phase, h.Range, t.Text)
+						}
 					}
-				}
-				if eds, err := s.Rename("m.lua", tr.Start.Line, tr.Start.Character, "zz"); err == nil {
-					r.Transitions++
-					for f, l := range eds {
-						if f == "m.lua" {
-							for _, ed := range l {
-								judge("rename-edit", ed.Range, t.Text)
+					if eds, err := s.Rename("m.lua", tr.Start.Line, tr.Start.Character, "zz"); err == nil {
+						r.Transitions++
+						for f, l := range eds {
+							if f == "m.lua" {
+								for _, ed := range l {
+									judge("rename-edit"+phase, ed.Range, t.Text)
+								}
 							}
 						}
 					}
 				}
 			}
+			sweep()
 			if syms, err := s.DocSymbols("m.lua"); err == nil {
 				var flat []drv.DocSymbol
 				flattenSyms(syms, &flat)
@@ -211,6 +215,15 @@ func c04Space(tier string) *core.Space {
 					}
 				}
 			}
+			// the same sweep after an unsaved edit that moves every token one line down: ranges must be those of the buffer
+			{
+				shifted := "-- typed above" + c04EOLs[e].s + text
+				s.ChangeFull("m.lua", shifted)
+				text = shifted
+				phase = ":after-unsaved-edit"
+				sweep()
+				phase = ""
+			}
 			if i%211 == 0 {
 				r.Sample(map[string]interface{}{"m.lua": text, "occurrence": k.name, "eol": c04EOLs[e].name})
 			}
@@ -227,6 +240,6 @@ func init() {
 			"oracle: start <= end, both ends are positions of the client's text (character <= UTF-16 line length), and for definition/references/highlight/rename edits and type 2/3/4 diagnostics the UTF-16 slice under the range is the identifier. states = ranges judged; non-trivial = documents with a non-blank prefix",
 		Assumptions: []string{"the client's text and the reference line table (internal/textref: LF, CRLF, CR; UTF-16 units) are the ground truth", "in the single-file space ranges in other files are not judged; the two-file space judges every range in the file it names"},
 		Flavour:     "prod+overlay", QuickBudgetS: 120, ThoroughBudgetS: 900,
-		Spaces: func(tier string) []*core.Space { return []*core.Space{c04Space(tier), c04MultiSpace()} },
+		Spaces: func(tier string) []*core.Space { return []*core.Space{c04Space(tier), c04MultiSpace(), c04AnnotationSpace()} },
 	})
 }
